@@ -563,4 +563,101 @@ def creaderAllP (mem : Str) : Nat → Nat → PR (List (Nat × Int × Nat) × Bo
     let (l, ended) ← creaderAllP mem f cur'
     pure ((tok, len, cur') :: l, ended)
 
+/-! ## path_next / path_iterate — pathops.h
+
+`m` is the whole allocation of the NUL-terminated path (text, terminator and
+whatever follows), a `const char *` is an index into it. -/
+
+/-- `*path == '.' && (*(path + 1) == '/' || *(path + 1) == '\0')` -/
+def isSingleDotP (m : Str) (path : Nat) : PR Bool := do
+  let c ← rd m path
+  if c != DOT then pure false else
+  let nc ← rd m (path + 1)
+  pure (nc == SLASH || nc == NUL)
+
+/-- before 03ab9aa: `char nc = *(path + 1);` came first -/
+def isSingleDotOrigP (m : Str) (path : Nat) : PR Bool := do
+  let nc ← rd m (path + 1)
+  let c ← rd m path
+  pure (c == DOT && (nc == SLASH || nc == NUL))
+
+/-- `while (*path == '/' || path_is_single_dot(path)) ++path;` -/
+def skipSlashDotsP (m : Str) : Nat → Nat → PR Nat
+  | 0, _ => .fuel
+  | f + 1, path => do
+    let c ← rd m path
+    if c == SLASH then skipSlashDotsP m f (path + 1) else
+    if (← isSingleDotP m path) then skipSlashDotsP m f (path + 1) else pure path
+
+/-- `while (*end && *end != '/') ++end;` -/
+def scanCompP (m : Str) : Nat → Nat → PR Nat
+  | 0, _ => .fuel
+  | f + 1, e => do
+    let c ← rd m e
+    if c != NUL && c != SLASH then scanCompP m f (e + 1) else pure e
+
+/-- `path_next(path, &len)` for `path != NULL`: NULL or (returned pointer, `*p_len`) -/
+def pathNextP (m : Str) (path : Nat) : PR (Option (Nat × Nat)) := do
+  let path ← skipSlashDotsP m (m.length + 1) path
+  -- if (!*path) return NULL;
+  let c ← rd m path
+  if c == NUL then pure none else
+  -- end = path; while (*end && *end != '/') ++end; *p_len = end - path;
+  let e ← scanCompP m (m.length + 1) path
+  pure (some (path, e - path))
+
+/-- `path_iterate(path)` for `path != NULL` -/
+def pathIterateP (m : Str) (path : Nat) : PR (Option Nat) := do
+  -- if (*path == '\0') return NULL;
+  let c ← rd m path
+  if c == NUL then pure none else
+  if c == SLASH then
+    let p ← skipSlashDotsP m (m.length + 1) path
+    pure (some p)
+  else
+    let p ← scanCompP m (m.length + 1) path
+    let p ← skipSlashDotsP m (m.length + 1) p
+    pure (some p)
+
+/-! ## argvc_internal_split — argvc.h (NUL-terminated; `m` = the whole allocation) -/
+
+/-- `while (*data != '\0') { if (strchr(ws, *data)) ++data; else break; }` -/
+def skipWsZP (m : Str) : Nat → Nat → PR Nat
+  | 0, _ => .fuel
+  | f + 1, data => do
+    let c ← rd m data
+    if c != NUL then (if strchrHit wsArgv c then skipWsZP m f (data + 1) else pure data) else pure data
+
+/-- `while (!strchr(ws, *data) && *data != '\0') ++data;` -/
+def scanTokZP (m : Str) : Nat → Nat → PR Nat
+  | 0, _ => .fuel
+  | f + 1, data => do
+    let c ← rd m data
+    if !strchrHit wsArgv c && c != NUL then scanTokZP m f (data + 1) else pure data
+
+def argvSplitLoopP (argcmax : Nat) : Nat → Str → Nat → Nat → List Nat → PR ArgvRes
+  | 0, _, _, _, _ => .fuel
+  | f + 1, m, data, argc, argv => do
+    let data ← skipWsZP m (m.length + 1) data
+    -- if (*data == '\0' || argc >= argcmax) return argc;
+    let c ← rd m data
+    if c == NUL || argc ≥ argcmax then pure ⟨argc, argv, m⟩ else
+    -- argv[argc++] = data;   (an array of argcmax slots)
+    if argc ≥ argcmax then .oob argc else
+    let argv := argv ++ [data]
+    let argc := argc + 1
+    let data ← scanTokZP m (m.length + 1) data
+    -- if (*data == '\0') return argc;
+    let c2 ← rd m data
+    if c2 == NUL then pure ⟨argc, argv, m⟩ else
+    -- if (strchr(ws, *data)) { *data++ = '\0'; continue; }  break;
+    if strchrHit wsArgv c2 then
+      let m ← wr m data NUL
+      argvSplitLoopP argcmax f m (data + 1) argc argv
+    else pure ⟨argc, argv, m⟩
+
+/-- `argvc_internal_split(data, argv, argcmax)` -/
+def argvSplitP (data : Str) (argcmax : Nat) : PR ArgvRes :=
+  argvSplitLoopP argcmax (data.length + 1) data 0 0 []
+
 end Igris.C19
